@@ -86,6 +86,16 @@ def executable_programs(run, info):
     info['skeleton_space'] = sk
     for p in progen.random_programs(random.Random(run.rng.getrandbits(48)), b['random_n'], size=b['random_size']):
         yield p
+    # small exhaustive families added by the coordinator: binding constructs, nested raise/handler shapes, jump contexts
+    for p in progen.binding_scenario_programs():
+        yield p
+    rh = list(progen.raise_handler_programs(info=sk))
+    step = 1 if run.tier != 'quick' else 4
+    off = run.seed % step
+    for p in rh[off::step]:
+        yield p
+    for p in progen.jump_context_programs(2, cap=150 if run.tier == 'quick' else 1500, rng=random.Random(run.rng.getrandbits(48)), info=sk):
+        yield p
 
 
 # ---------------------------------------------------------------------------------------------
